@@ -59,6 +59,8 @@ def run(ctx):
     for merge in (True, False):
         for seed in range(3):
             tasks.append(dict(fn='check_misc', kw=dict(merge=merge, seed=seed + ctx.seed)))
+    for merge in (True, False):
+        tasks.append(dict(fn='check_hier', kw=dict(merge=merge)))
     for n in (2, 10, 11, 12, 23):
         for merge in (True, False):
             tasks.append(dict(fn='check_wide_vector', kw=dict(n=n, merge=merge)))
@@ -89,6 +91,8 @@ def run(ctx):
                 key = 'bench[%s/%d]' % (kw['gate'], kw['nin'])
             elif t['fn'] == 'check_wide_vector':
                 key = 'wide_vector[merge=%s]' % kw['merge']
+            elif t['fn'] == 'check_hier':
+                key = 'hierarchy[merge=%s]' % kw['merge']
             else:
                 key = 'misc[merge=%s]' % kw['merge']
             if key not in first:
@@ -110,7 +114,7 @@ def run(ctx):
     ctx.family('C12.misc_and_bench', 'B', instances=len(tasks) - ncov - len(names),
                evaluations=len(tasks) - ncov - len(names), nontrivial=len(tasks) - ncov - len(names),
                bound='constants, latch init codes, internal reads of outputs, vector ports merged/unmerged, '
-                     '.subckt nested two levels; ISCAS gates with 2..4 inputs + DFF',
+                     '.subckt nested two levels; a model instantiated on several nets / models sharing local names; ISCAS gates with 2..4 inputs + DFF',
                sample=dict(fn='check_misc'))
     return ctx.finish('other', './check C12', ['z3', 'pyvc', 'CPython', 'pyparsing'],
                       'P: every entry of the flop_next table builds the next-state function of its Yosys cell name '
